@@ -275,7 +275,8 @@ def run(ck: Check):
     terms = [case_term(c, o) for c, o in zip(cases, obs)]
     bad = ck.coq_eval("comp", HEADER, terms, "comp_case", "check_comp", shard=150)
     ck.run_fixed({"hard_coded_kwargs_reach_the_child_as_they_are": "C14:kwargs"})
-    ck.run_fixed({"tree_started_inside_a_component": "C14:remap"})
+    ck.run_fixed({"tree_started_inside_a_component": "C14:remap",
+                  "default_name_is_remapped_only_while_starting": "C14:remap"})
     seen, n_fail = {}, 0
     for c, o in zip(cases, obs):
         for sig, what in oracle(c, o):
